@@ -1,0 +1,10 @@
+//go:build verif
+
+package eval
+
+// VerifReset clears the evaluator-level state that survives a run.
+func VerifReset() {
+	DefineInfoArticles = []DefineInfoArticle{}
+	DynamicEvaluators["if"] = NewIfUnless("if")
+	DynamicEvaluators["unless"] = NewIfUnless("unless")
+}
